@@ -456,6 +456,18 @@ func (k *c15) genRun(r *vh.Rng, idx int, route, gwMode string) *c15Run {
 		levels := []float64{float64(r.Range(1, n)), float64(r.Range(1, n)) + 0.5, vh.RoundTo(r.Uni(0.5, float64(n)+2), 2), float64(r.Range(2, n+3)), vh.RoundTo(r.Uni(0.5, float64(n)+2), 1)}
 		d := start.AddDays(r.Range(-40, 30))
 		cur := levels[r.Intn(len(levels))]
+		if r.Chance(0.35) {
+			// the table rests across the simulation start at a level that is not the one of the first record:
+			// the saturated zone of the first days is the work of Input (first record) and Init (level of the start day)
+			l0, l1 := levels[r.Intn(len(levels))], levels[r.Intn(len(levels))]
+			if l0 == l1 {
+				l1 = l0 + 3.5
+			}
+			p.GWSerie = append(p.GWSerie, proj.GWPoint{Date: start.AddDays(-r.Range(30, 50)), Level: l0},
+				proj.GWPoint{Date: start.AddDays(-r.Range(3, 20)), Level: l1})
+			d = start.AddDays(r.Range(4, 20))
+			cur = l1
+		}
 		for i := 0; i < r.Range(4, 14); i++ {
 			p.GWSerie = append(p.GWSerie, proj.GWPoint{Date: d, Level: cur})
 			d = d.AddDays(r.Range(2, 40))
